@@ -391,6 +391,97 @@ pub fn run(ctx: &mut Ctx) {
             ctx.sample(|| json!({"dag": d.describe(), "ids": ids}));
         }
     }
+    // ---- sample sets that come about through every public route (constructed, grown by Extend, filtered,
+    // obsolete members replaced, reduced to child nodes, derived from a record): the enrichment of a set is
+    // about its members, whichever route produced it
+    {
+        use super::setroutes;
+        let f = setroutes::facts();
+        let depth = if thorough { 3 } else { 2 };
+        ctx.space("sample-sets/construction-routes", &format!("{}; every sequence of <= {depth} operations; after every sequence the three enrichments of the set against `&ontology`: one result per record linked to a member, k counted over the distinct members, exact tail, fold - and identical to the enrichment of a freshly constructed set with the same members", setroutes::DESCRIPTION));
+        match drive::from_bytes(&crate::encode::encode(&f, &crate::encode::EncOpts::v(3))) {
+            Ok(Ok(ont)) => {
+                let r = crate::model::RefOnt::derive(&f);
+                let all_ids: Vec<u32> = f.terms.iter().map(|t| t.id).collect();
+                let alphabet = setroutes::alphabet();
+                let seqs = setroutes::sequences(alphabet.len(), depth);
+                for start in 0..setroutes::N_STARTS {
+                    if !ctx.take() {
+                        continue;
+                    }
+                    ctx.state();
+                    ctx.nontrivial();
+                    let start_name = setroutes::start_name(start);
+                    'seqs: for seq in &seqs {
+                        let ops: Vec<setroutes::Op> = seq.iter().map(|k| alphabet[*k]).collect();
+                        for kind in KINDS {
+                            ctx.exec();
+                            ctx.validated();
+                            ctx.transitions(seq.len() as u64 + 1);
+                            type Rows = Vec<(u32, u64, f64, f64)>;
+                            let got = guard(|| -> Option<(Vec<u32>, Rows, Rows)> {
+                                let mut a = setroutes::start(&ont, start)?;
+                                for op in &ops {
+                                    a = setroutes::apply(&ont, a, *op);
+                                }
+                                let members: Vec<u32> = a.iter().map(|t| t.id().as_u32()).collect();
+                                let mut distinct = members.clone();
+                                distinct.sort_unstable();
+                                distinct.dedup();
+                                let fresh = setroutes::fresh(&ont, &distinct);
+                                let run = |s: &hpo::HpoSet| -> Rows {
+                                    let mut v: Rows = match kind {
+                                        Kind::Gene => gene_enrichment(&ont, s).iter().map(|e| (e.id().as_u32(), e.count(), e.pvalue(), e.enrichment())).collect(),
+                                        Kind::Omim => omim_disease_enrichment(&ont, s).iter().map(|e| (e.id().as_u32(), e.count(), e.pvalue(), e.enrichment())).collect(),
+                                        Kind::Orpha => orpha_disease_enrichment(&ont, s).iter().map(|e| (e.id().as_u32(), e.count(), e.pvalue(), e.enrichment())).collect(),
+                                    };
+                                    v.sort_by_key(|x| x.0);
+                                    v
+                                };
+                                Some((distinct, run(&a), run(&fresh)))
+                            });
+                            let case = |extra: serde_json::Value| json!({"facts": f.to_json(), "set": format!("{start_name} then {ops:?}"), "background": "&ontology", "kind": kind.name(), "detail": extra});
+                            let (distinct, res, res_fresh) = match got {
+                                Ok(Some(x)) => x,
+                                Ok(None) => {
+                                    ctx.violation("Ontology::gene", "record of a decoded file not found", case(json!({})));
+                                    break 'seqs;
+                                }
+                                Err(p) => {
+                                    ctx.violation(site(kind), "[set built by a sequence of set operations] panics", case(json!({"observed": p})));
+                                    break 'seqs;
+                                }
+                            };
+                            let same = res.len() == res_fresh.len() && res.iter().zip(&res_fresh).all(|(x, y)| x.0 == y.0 && x.1 == y.1 && x.2.to_bits() == y.2.to_bits() && x.3.to_bits() == y.3.to_bits());
+                            if !same {
+                                ctx.violation(site(kind), "[set built by a sequence of set operations] differs from the enrichment of a freshly constructed set with the same members", case(json!({"members": distinct, "observed": format!("{res:?}"), "fresh_set": format!("{res_fresh:?}")})));
+                                break 'seqs;
+                            }
+                            let linked = |t: u32, rec: u32| r.terms[&t].recs[kind.idx()].contains(&rec);
+                            let recs: Vec<u32> = r.recs[kind.idx()].keys().copied().collect();
+                            let (big_n, sn) = (all_ids.len(), distinct.len());
+                            let want: Vec<(u32, usize, usize)> = recs.iter().map(|rec| (*rec, all_ids.iter().filter(|t| linked(**t, *rec)).count(), distinct.iter().filter(|t| linked(**t, *rec)).count())).filter(|w| w.2 > 0).collect();
+                            if res.len() != want.len() || res.iter().zip(&want).any(|(x, w)| x.0 != w.0) {
+                                ctx.violation(site(kind), "[set built by a sequence of set operations] not exactly one record per annotation linked to a sample term", case(json!({"members": distinct, "observed_ids": res.iter().map(|x| x.0).collect::<Vec<_>>(), "expected_ids": want.iter().map(|w| w.0).collect::<Vec<_>>()})));
+                                break 'seqs;
+                            }
+                            for (x, w) in res.iter().zip(&want) {
+                                let (big_k, k) = (w.1, w.2);
+                                let want_p = exact.p(big_n, big_k, sn, k);
+                                let want_fold = (k as f64 / sn as f64) / (big_k as f64 / big_n as f64);
+                                if x.1 != k as u64 || !(x.2 >= 0.0 && x.2 <= 1.0) || (x.2 - want_p).abs() > 1e-9 * want_p || !((x.3 - want_fold).abs() <= 1e-12 * want_fold.abs()) {
+                                    ctx.violation(site(kind), "[set built by a sequence of set operations] count, p-value or fold differ from the hypergeometric model of the set's members", case(json!({"members": distinct, "record": w.0, "N": big_n, "K": big_k, "n": sn, "k": k, "observed": format!("{x:?}"), "expected_p": want_p, "expected_fold": want_fold})));
+                                    break 'seqs;
+                                }
+                            }
+                        }
+                    }
+                    ctx.sample(|| json!({"start": start_name, "sequences": seqs.len()}));
+                }
+            }
+            other => ctx.violation("Ontology::from_bytes", "cannot decode a file laid out as documented", json!({"facts": f.to_json(), "observed": format!("{:?}", other.map(|r| r.map(|_| ())))})),
+        }
+    }
     // ---- the same sweep on a decoded ontology whose leaves are partly obsolete and / or replaced
     {
         let lf = if thorough { 24 } else { 14 };
